@@ -1261,7 +1261,7 @@ pub fn mtu(seed: u64, out: &mut Outcome) {
         }
         // C16: application datagrams of every size up to the reported maximum, all along (also while the path is
         // a black hole): send() accepts exactly what fits the reported maximum
-        if dgram_every > 0 && sim.steps % dgram_every == 0 {
+        if dgram_every > 0 && sim.steps % dgram_every == 0 && dgram_seq < 4000 {
             for node in 0..2 {
                 let Some(ch) = w.ch[node] else { continue };
                 if sim.nodes[node].conns[&ch].conn.is_closed() || !sim.nodes[node].conns[&ch].obs.connected {
